@@ -8,7 +8,7 @@ import re
 import subprocess
 from vlib import ToolError, REPO
 
-PROTOCOL = "v1"
+PROTOCOL = "v2"
 MCL = """---- MODULE MCL ----
 EXTENDS Lifecycle
 MCFeed == %s
@@ -64,11 +64,11 @@ def pairs(points, allpairs):
 
 
 MCCFG = """SPECIFICATION Spec
-CONSTANTS Feeds <- MCFeeds
+CONSTANTS Feeds <- %s
  OpReads = %d
  Protocol = "%s"
 INVARIANT NoPanic
-PROPERTIES CloseReturns NoLeak TransportClosed
+PROPERTIES CloseReturns NoLeak TransportClosed OpEnds
 CHECK_DEADLOCK FALSE
 """
 
@@ -76,7 +76,7 @@ CHECK_DEADLOCK FALSE
 def model_matrix(ctx, thorough):
     """One TLC run over the whole matrix (feed x closes x close behaviour x driver are chosen in Init)."""
     bad = []
-    r = ctx.tlc("MCLifecycle", cfg="mc.cfg", files={"mc.cfg": MCCFG % (3 if thorough else 2, PROTOCOL)}, workers=16, timeout=1800, coverage=thorough)
+    r = ctx.tlc("MCLifecycle", cfg="mc.cfg", files={"mc.cfg": MCCFG % ("MCFeeds", 3 if thorough else 2, PROTOCOL)}, workers=16, timeout=1800, coverage=thorough)
     ctx.vacuous += r.get("vacuous", [])
     if r["violated"]:
         which = "NoPanic" if "Invariant NoPanic is violated" in r["stdout"] else "temporal"
@@ -91,10 +91,15 @@ def model_matrix(ctx, thorough):
         bad.append({"netconf": cfgm["netconf"], "closebeh": cfgm["closeunblocks"], "closes": cfgm["closes"], "feed": cfgm["feed"], "property": which,
                     "panic": m[-1] if m else "", "tail": r["stdout"][-1200:]})
     # vacuity guard: the same properties must be violated by the protocol of the pinned commit (v0)
-    r0 = ctx.tlc("MCLifecycle", cfg="mc.cfg", files={"mc.cfg": MCCFG % (2, "v0")}, workers=16, timeout=600, expect_violation=True)
+    r0 = ctx.tlc("MCLifecycle", cfg="mc.cfg", files={"mc.cfg": MCCFG % ("MCFeeds" if thorough else "MCFeedsSmall", 2, "v0")}, workers=16, timeout=600, expect_violation=True)
     ctx.notes["v0_protocol_rejected_by_model"] = bool(r0["violated"])
     if not r0["violated"]:
         raise ToolError("Lifecycle.tla accepts the pinned commit's shutdown protocol (v0): the properties have become vacuous")
+    # second guard: the protocol before the in-flight fixes (v1) keeps an operation alive after Close (OpEnds)
+    r1 = ctx.tlc("MCLifecycle", cfg="mc.cfg", files={"mc.cfg": MCCFG % ("MCFeeds" if thorough else "MCFeedsSmall", 2, "v1")}, workers=16, timeout=600, expect_violation=True)
+    ctx.notes["v1_protocol_rejected_by_model"] = bool(r1["violated"]) and "OpEnds" in r1["stdout"]
+    if not ctx.notes["v1_protocol_rejected_by_model"]:
+        raise ToolError("Lifecycle.tla accepts protocol v1 for OpEnds: the property has become vacuous")
     return bad
 
 
@@ -118,6 +123,13 @@ def scenarios(ctx, thorough):
                             k += 1
                         for a, b in sel:
                             scns.append(dict(base, before=a, after=b))
+    # the built-in transports under the same contract (real telnet over loopback, standard SSH against the in-process server)
+    for tr in ("telnet", "standard"):
+        for st in ("idle", "inflight", "eof"):
+            for closes in (1, 2):
+                for oc in (False, True):
+                    for _ in range(2 if thorough else 1):
+                        scns.append({"driver": "generic", "transport": tr, "state": st, "closes": closes, "onclose": oc, "closebeh": "real", "readdelay_us": 200, "before": "", "after": ""})
     return scns, points, ps
 
 
